@@ -14,5 +14,6 @@ CONSTANTS
   BkRechecksLock = FALSE
   AllowConcurrent = TRUE
   GcStopsOnUnreadableHunk = TRUE
+  GcBandsBeforeBlocks = TRUE
 INVARIANTS Inv_QuiescentNoLoss Inv_RecordedBytes
 CHECK_DEADLOCK FALSE
